@@ -145,8 +145,8 @@ def gen_pairs(rng, n):
             w = wrappers[(sa * 6 + sb) % len(wrappers)]
             src = w.replace("%s", "L")
             out.append(("local-scope" if sa != sb else "local-same", {"a": (src, "r", sa), "b": (src, "r", sb)}))
-    g = tg.Gen(rng, home="r")
-    gc = tg.Gen(rng, home="r", allow_local=False, closed=True)
+    g = tg.Gen(rng, home="r", universe=tg.UNIVERSE_WITH_METHODS)
+    gc = tg.Gen(rng, home="r", allow_local=False, closed=True, universe=tg.UNIVERSE_WITH_METHODS)
     i = 0
     while len(out) < n:
         i += 1
@@ -191,6 +191,15 @@ def gen_pairs(rng, n):
 
 # ------------------------------------------------------------------------------------------- implements generation
 
+IMPL_FIXED = [("struct{ p.Xz; q.Xc }", "interface{ p.Kz; q.Kc }"), ("struct{ p.Xz; q.Xc }", "interface{ q.Kc; p.Kz }"), ("struct{ p.Xz; q.Xc }", "p.Kz"), ("p.Box", "p.I"), ("p.Box", "p.J"), ("*p.Box", "p.J"), ("p.BoxS", "p.J"), ("*p.BoxR", "p.J"), ("p.BoxR", "p.J"), ("p.SlM", "p.I"), ("*p.SlM", "p.J"),
+              ("p.MpM", "p.J"), ("p.FnM", "p.I"), ("*p.FnM", "p.J"), ("p.ArM", "p.I"), ("*p.ArM", "p.J"), ("p.StM", "p.J"), ("*p.FlM", "p.J"), ("p.PsM", "p.I"),
+              ("Box", "interface{ M() int; k() }"), ("ArM", "interface{ M() int; k() }"), ("struct{ p.Box }", "p.I"),
+              ("struct{ p.Xb; q.Xa }", "interface{ p.Kb; q.Ka }"), ("UniT", "Uni"), ("*UniT", "Uni"), ("p.UniT", "p.Uni"), ("UniT", "interface{ Zc() int; \u00c4b() int }"), ("MixT", "Mix"), ("*MixT", "Mix"), ("struct{ p.Xa; q.Xb }", "interface{ p.Ka; q.Kb }"), ("p.T", "p.I"), ("*p.T", "p.J"),
+              ("p.T", "p.J"), ("p.T", "p.K"), ("p.T", "interface{ k() }"), ("T", "interface{ k() }"), ("p.MixT", "p.Mix"),
+              ("struct{ p.MixT }", "p.Mix"), ("q.MixT", "p.Mix"), ("*p.G[int]", "interface{ Get() int }"),
+              ("*p.G[string]", "interface{ Get() int }"), ("Mix", "interface{ Zeta(); alpha() }"), ("p.Mix", "interface{ Zeta(); alpha() }")]
+
+
 def gen_impls(rng, n):
     out = []
     for home in ("r", "d"):
@@ -198,25 +207,22 @@ def gen_impls(rng, n):
             return s if pkg == home else tg.pkg_name(pkg) + "." + s
         ops, itfs = [], []
         for pkg in ("p", "q", home):
-            for nm in ["T", "E", "U", "G[int]", "G[string]", "Em", "Xa", "Xb", "MixT"]:
+            for nm in ["T", "E", "U", "G[int]", "G[string]", "Em", "Xa", "Xb", "MixT", "UniT", "Box", "BoxS", "BoxR", "SlM", "MpM", "FnM", "ArM", "StM", "FlM", "PsM"]:
                 ops += [q(pkg, nm), "*" + q(pkg, nm)]
-            for nm in ["I", "J", "K", "Mix", "Kab", "Ka"]:
+            for nm in ["I", "J", "K", "Mix", "Kab", "Ka", "Uni"]:
                 ops.append(q(pkg, nm))
                 itfs.append(q(pkg, nm))
             itfs += [q(pkg, "Kb"), q(pkg, "AI"), "interface{ %s }" % q(pkg, "K"), "interface{ %s }" % q(pkg, "Mix")]
-        ops += ["struct{ p.T }", "struct{ *p.T }", "*struct{ p.T }", "struct{ p.Xa; q.Xb }", "struct{ p.Xa; Xb }", "struct{ p.T; q.U }",
+        ops += ["struct{ p.Box }", "struct{ *p.BoxR; X int }", "struct{ p.Xb; q.Xa }", "struct{ p.Xb; q.Xa2 }", "struct{ p.T }", "struct{ *p.T }", "*struct{ p.T }", "struct{ p.Xa; q.Xb }", "struct{ p.Xa; Xb }", "struct{ p.T; q.U }",
                 "struct{ p.E; X int }", "interface{ M() int }", "int", "struct{}", "struct{ p.MixT }", "*struct{ MixT }", "error",
                 "struct{ p.I }", "struct{ p.K }", "struct{ q.K; Xa }"]
-        itfs += ["any", "interface{}", "interface{ M() int }", "interface{ M() string }", "interface{ N(string) }",
+        itfs += ["interface{ p.Kb; q.Ka }", "interface{ q.Ka; p.Kb }", "interface{ M() int; k() }", "any", "interface{}", "interface{ M() int }", "interface{ M() string }", "interface{ N(string) }",
                  "interface{ M() int; N(string) }", "interface{ k() }", "interface{ p.Ka; q.Kb }", "interface{ p.Ka; Kb }",
                  "interface{ q.Kb; p.Ka }", "interface{ Get() int }", "interface{ M() int; Get() int }", "interface{ Get() string }",
                  "interface{ Zeta(); Beta(int) string }", "interface{ Zeta(); alpha() }", "interface{ Beta(int) string; gamma() error }",
                  "error", "interface{ m() }", "interface{ M() int; k() }", "interface{ p.K; M() int }", "interface{ a() int }"]
         # fixed corpus first
-        for op, itf in [("UniT", "Uni"), ("*UniT", "Uni"), ("p.UniT", "p.Uni"), ("UniT", "interface{ Zc() int; \u00c4b() int }"), ("MixT", "Mix"), ("*MixT", "Mix"), ("struct{ p.Xa; q.Xb }", "interface{ p.Ka; q.Kb }"), ("p.T", "p.I"), ("*p.T", "p.J"),
-                        ("p.T", "p.J"), ("p.T", "p.K"), ("p.T", "interface{ k() }"), ("T", "interface{ k() }"), ("p.MixT", "p.Mix"),
-                        ("struct{ p.MixT }", "p.Mix"), ("q.MixT", "p.Mix"), ("*p.G[int]", "interface{ Get() int }"),
-                        ("*p.G[string]", "interface{ Get() int }"), ("Mix", "interface{ Zeta(); alpha() }"), ("p.Mix", "interface{ Zeta(); alpha() }")]:
+        for op, itf in IMPL_FIXED:
             out.append((op, itf, home))
         for _ in range(n // 2):
             out.append((rng.choice(ops), rng.choice(itfs), home))
@@ -250,7 +256,7 @@ def gen_tables(rng, n):
         else:
             rng.shuffle(t)
         enc = lambda es: " ".join("%s %d %d" % (hexs(a), b, c) for a, b, c in es)
-        mode = rng.choice(["v:", "v:", "v:", "iface:", "none"])
+        mode = rng.choice(["v:", "v:", "v@chan:", "v@pointer:", "v@slice:", "v@array:", "v@map:", "v@func:", "v@basic:", "iface:", "none"])
         if mode == "none":
             lines.append(("impl t: %s | none" % enc(t), t, None, mode))
         else:
@@ -389,7 +395,8 @@ def run(ctx, args):
     for line in impl_lines:
         head, rest = line.split(" t: ", 1) if " t: " in line else (line.split(" t:", 1)[0], line.split(" t:", 1)[1])
         hf = head.split(" ")
-        idx, spec, op_is_iface = int(hf[1]), hf[2] == "1", hf[3] == "1"
+        idx, spec, op_is_iface = int(hf[1]), hf[2] == "1", hf[3].split(",")[0] == "1"
+        op_kind = hf[3].split(",")[1]
         parts = [x.strip() for x in rest.split("|")]
         ttab = parts[0].split()
         vtab = parts[1].split()[1:] if parts[1].startswith("v:") else []
@@ -397,7 +404,10 @@ def run(ctx, args):
             return [(tab[i], tid(tab[i + 1]), 1 + (i // 2)) for i in range(0, len(tab), 2)]
         t, v = ents(ttab), ents(vtab)
         enc = lambda es: " ".join("%s %d %d" % e for e in es)
-        mode = "iface:" if op_is_iface else "v:"
+        # the operand's descriptor is laid out as ssa/abitype.go does for its KIND (chantype/arraytype/maptype/… header, then
+        # the uncommon part): (*abi.Type).Uncommon() must find the method table behind each of them
+        mode = "iface:" if op_is_iface else ("v:" if op_kind == "struct" else "v@%s:" % op_kind)
+        stats["implements:operand-kind:" + op_kind] = stats.get("implements:operand-kind:" + op_kind, 0) + 1
         if not op_is_iface and not v:
             l = "impl t: %s | none" % enc(t)
         else:
@@ -411,17 +421,26 @@ def run(ctx, args):
     for (l, t, v, mode) in tabs:
         nat_lines.append(l)
         model_lines.append(l)
-    rout, rc, err = run_lines([nat], nat_lines)
+    rout, native_crashes = run_native(nat, nat_lines)
+    err = ""
     mout2, rc2, err2 = run_lines([modeld], model_lines + implspec_lines)
+    for (k, tail) in native_crashes[:3]:
+        # the verbatim runtime code crashed on a descriptor laid out as the compiler emits it: an answer was due
+        spec_fail += 1
+        what = ("%s vs %s in %s" % metas[k][0]) if k < len(metas) else nat_lines[k][:160]
+        ctx.report("native-crash:%s" % what, "Implements / NewItab (verbatim z_face.go + runtime/abi) crash on a descriptor with a method table",
+                   {"input_line": nat_lines[k], "case": what, "stderr_tail": tail})
     if len(rout) != len(nat_lines) or len(mout2) != len(model_lines) + len(implspec_lines):
         raise RuntimeError("native/model died: %d/%d %d/%d\n%s\n%s" % (len(rout), len(nat_lines), len(mout2), len(model_lines) + len(implspec_lines), err[-2000:], err2[-2000:]))
     n_gen = len(impl_lines)
     for i, (rl, ml) in enumerate(zip(rout, mout2[:len(model_lines)])):
         evaluations += 1
+        if rl in ("crash", "skipped"):
+            continue
         rf, mf = rl.split(" "), ml.split(" ")
         nontrivial.add(nat_lines[i])
         # correspondence: Implements verdict, NewItab verdict
-        if rf[0] != mf[0] or (rf[1] != "-" and rf[1] != mf[1]):
+        if rf[0] != mf[0] or (rf[1] != "-" and rf[1] != mf[1]) or (rf[1] == "1" and len(mf) > 3 and rf[2] != mf[3]):
             corr_bad.append((i, "scan: real %s model %s on %s" % (rl, ml, nat_lines[i]), None))
         if i < n_gen:
             (op, itf, home), t, v, op_is_iface = metas[i]
@@ -450,6 +469,15 @@ def run(ctx, args):
                 unknown_seen["newitab"] = unknown_seen.get("newitab", 0) + 1
                 if unknown_seen["newitab"] <= 3:
                     ctx.report(key, "runtime NewItab(%s, %s) %s but the type %s the interface" % (itf, op, "succeeds" if rf[1] == "1" else "fails", "implements" if spec else "does not implement"), rep)
+            if rf[1] == "1" and spec and not op_is_iface:
+                # the method a call through the interface reaches: slot k must hold the code pointer of THE method of the operand
+                # that has the interface method's name (and type)
+                want = [str(next((m[2] for m in v if m[0] == e[0] and m[1] == e[1]), -1)) for e in t]
+                if rf[2].split(",") != want:
+                    spec_fail += 1
+                    unknown_seen["itabfun"] = unknown_seen.get("itabfun", 0) + 1
+                    if unknown_seen["itabfun"] <= 3:
+                        ctx.report("newitab-slots:%s|%s|%s" % (op, itf, home), "the itab built by NewItab(%s, %s) does not hold the operand's methods in the interface's slots" % (itf, op), dict(rep, want=want))
         else:
             (l, t, v, mode) = tabs[i - n_gen]
             stats["synthetic-tables"] = stats.get("synthetic-tables", 0) + 1
@@ -462,7 +490,7 @@ def run(ctx, args):
                     unknown_seen["syn"] = unknown_seen.get("syn", 0) + 1
                 if (rf[0] == "1") != spec and unknown_seen["syn"] <= 3:
                     ctx.report("implements:sorted-tables:" + l[:120], "Implements disagrees with the specification on sorted duplicate-free tables", {"line": l, "native": rl})
-                if mode == "v:" and t and rf[1] != "-":
+                if mode.startswith("v") and t and rf[1] != "-":
                     ok_spec = spec and v and [m for m in v if m[0] == t[0][0]][0][2] != 0
                     if (rf[1] == "1") != bool(ok_spec):
                         spec_fail += 1
@@ -545,6 +573,21 @@ def run(ctx, args):
                                "correspondence_mismatches": len(corr_bad), "spec_validation_mismatches": len(specval_bad)})
 
 
+def run_native(binary, lines, max_crashes=12):
+    """feed the lines to the native binary; if it dies, note the line it died on and restart behind it.
+    -> (one output per line: answer | 'crash' | 'skipped', [(line index, stderr tail)])"""
+    out, crashes = [], []
+    while len(out) < len(lines):
+        res, rc, err = run_lines([binary], lines[len(out):])
+        out += res
+        if len(out) < len(lines):
+            crashes.append((len(out), err[-500:]))
+            out.append("crash")
+            if len(crashes) >= max_crashes:
+                out += ["skipped"] * (len(lines) - len(out))
+    return out, crashes
+
+
 def scan_py(t, v):
     """the two-index scan of Implements"""
     if not t:
@@ -557,6 +600,65 @@ def scan_py(t, v):
                 return True
     return False
 
+
+GENERIC_LOCAL_SRC = """
+func glMk[T any]() any {
+	type X struct{ v T }
+	return X{}
+}
+
+func glUse1() any {
+	type T int
+	return glMk[T]()
+}
+
+func glUse2() any {
+	type T int
+	return glMk[T]()
+}
+
+func glAlias[T any]() any {
+	type X struct{ v T }
+	type Y = X
+	var y Y
+	return y
+}
+
+func glClosure[X any]() (func(X) any, func(any) bool) {
+	type box struct{ v X }
+	return func(x X) any { return box{x} }, func(a any) bool { _, ok := a.(box); return ok }
+}
+
+func glClosureCross() int {
+	mkI, isI := glClosure[int]()
+	mkS, isS := glClosure[string]()
+	code := 0
+	for _, b := range []bool{isI(mkI(1)), isI(mkS("x")), isS(mkS("x")), isS(mkI(1))} {
+		code *= 2
+		if b {
+			code++
+		}
+	}
+	return code
+}
+
+func glNested[T any]() any {
+	type X struct{ v T }
+	return []map[string]*X{}
+}
+"""
+GENERIC_LOCAL_CASES = [
+    ("plain", "glMk[int]() == glMk[string](), glMk[int]() == glMk[int](), glMk[p.T]() == glMk[q.T]()"),
+    ("nested", "glNested[int]() == nil, func() bool { _, ok := glNested[int]().([]map[string]*struct{ v int }); return ok }()"),
+    ("outer-local-type-argument", "glUse1() == glUse2(), glUse1() == glUse1()"),
+    ("alias", "glAlias[int]() == glAlias[string](), glAlias[int]() == glAlias[int]()"),
+    ("closure", "glClosureCross()"),
+]
+GENERIC_LOCAL_WHAT = {
+    "outer-local-type-argument": "instances of a generic function's local type over two different function-local types of the same name are one dynamic type",
+    "alias": "a local alias of a generic function's local type is not renamed per instantiation: al[int]() == al[string]()",
+    "closure": "a generic function's local type used inside its closures is not kept apart per instantiation",
+}
 
 E2E_PRELUDE_EXTRA = """
 func init() { _ = unsafe.Pointer(nil) }
@@ -645,6 +747,14 @@ def run_e2e(ctx, stats, pairs, pair_lines, pair_cmp, impls, impl_lines, specs, m
         bodies["r"].append("func case%d() {\n\tok, sw := %sIs%d(%sMk%d())\n\tprintln(%d, \"assert\", ok, sw)\n%s}\n" % (cn, qb, cn, qa, cn, cn, extra))
         case_meta.append(("pair", idx))
         main_calls.append("case%d()" % cn)
+    # local types of GENERIC functions (cl/compile.go renames them per instantiation): distinct instantiations must yield distinct
+    # dynamic types, also when the type argument is itself a local type, through a local alias, and inside closures
+    bodies["r"].append(GENERIC_LOCAL_SRC)
+    for key, expr in GENERIC_LOCAL_CASES:
+        cn = len(case_meta)
+        bodies["r"].append("func case%d() {\n\tprintln(%d, \"generic-local\", %s)\n}\n" % (cn, cn, expr))
+        case_meta.append(("generic-local", key))
+        main_calls.append("case%d()" % cn)
     # uncomparable dynamic types: interface == and map[any] insertion must PANIC exactly as under the reference build
     # (a blank field counts: struct{ _ [0]func(); x int } is the "make it incomparable" idiom)
     for usrc in ["struct{ _ [0]func(); x int }", "[2]struct{ _ [0]func(); x int }", "struct{ F struct{ _ [0]func(); x int }; G int }",
@@ -666,20 +776,47 @@ def run_e2e(ctx, stats, pairs, pair_lines, pair_cmp, impls, impl_lines, specs, m
     main_calls.append("case%d()" % cn)
     # implements cases (home r only), with the method call through the interface for two known interfaces
     n_impl = 0
+    late_bodies, late_calls = [], []
     for i, line in enumerate(impl_lines):
         (op, itf, home), t, v, op_is_iface = metas[i]
-        if home != "r" or n_impl >= want_impl and i >= 20:
+        if home != "r" or n_impl >= want_impl and i >= len(IMPL_FIXED):
             continue
-        if i >= 20 and (i * 7919) % 11 != 0:
+        if i >= len(IMPL_FIXED) and (i * 7919) % 11 != 0:
             continue
         cn = len(case_meta)
+        has_m = itf.split(".")[-1] in ("I", "J", "AI") or "M() int" in itf
+        # a non-nil operand value (a value method called through a nil pointer panics under Go as well); no calls at all where a
+        # method is promoted through an embedded POINTER field (nil in the zero value)
+        opval = "new(%s)" % op[1:] if op.startswith("*") else "*new(%s)" % op
+        if re.search(r'[{;]\s*\*', op) or op.split(".")[-1] in ("Em", "*Em"):
+            has_m = False
         call = ""
-        if itf in ("p.I", "I", "q.I") and specs[i]:
+        if has_m and specs[i]:
             call = "\tif ok {\n\t\tprintln(%d, \"call\", i.M())\n\t}\n" % cn
-        bodies["r"].append("func case%d() {\n\tvar v any = *new(%s)\n\ti, ok := v.(%s)\n\t_ = i\n\tprintln(%d, \"impl\", ok)\n%s}\n" % (cn, op, itf, cn, call))
+        bodies["r"].append("func case%d() {\n\tvar v any = %s\n\ti, ok := v.(%s)\n\t_ = i\n\tprintln(%d, \"impl\", ok)\n%s}\n" % (cn, opval, itf, cn, call))
         case_meta.append(("impl", i))
         main_calls.append("case%d()" % cn)
         n_impl += 1
+        if specs[i] and not op_is_iface:
+            # the STATIC conversion (MakeInterface -> NewItab) and a call through every slot we can name: the method reached must be
+            # the one a direct call reaches (its return value identifies package and receiver type).  These run last: an itab with
+            # an empty slot crashes the program
+            cn = len(case_meta)
+            uses = []
+            if has_m:
+                uses.append("s.M()")
+            if itf.split(".")[-1] == "Uni":
+                uses.append("%sUseUni(s)" % ("" if "." not in itf else itf.split(".")[0] + "."))
+            if "p.Kz" in itf and "q.Kc" in itf:
+                uses += ["p.CallZed(s)", "q.CallAlpha(s)"]
+            if itf == "p.Kz":
+                uses.append("p.CallZed(s)")
+            if uses:
+                late_bodies.append("func case%d() {\n\tvar s %s = %s\n\tprintln(%d, \"static\", %s)\n}\n" % (cn, itf, opval, cn, ", ".join(uses)))
+                case_meta.append(("static", i))
+                late_calls.append("case%d()" % cn)
+    bodies["r"] += late_bodies
+    main_calls += late_calls
     bodies["r"].append("func main() {\n\t" + "\n\t".join(main_calls) + "\n}\n")
     files = {"p/p.go": e2e_package("p", "\n".join(bodies["p"])), "q/q.go": e2e_package("q", "\n".join(bodies["q"])),
              "main.go": e2e_package("r", "\n".join(bodies["r"]))}
@@ -702,6 +839,8 @@ def run_e2e(ctx, stats, pairs, pair_lines, pair_cmp, impls, impl_lines, specs, m
         return info
     ro, re_, rrc = e2e.run_prog(os.path.join(d, "ref.bin"))
     lo, le, lrc = e2e.run_prog(os.path.join(d, "llgo.bin"))
+    if rrc != 0:
+        raise RuntimeError("the generated e2e program fails under the REFERENCE toolchain (generator bug), exit %s: %s" % (rrc, re_[-1500:]))
     rl = [x for x in re_.split("\n") if x]
     ll = [x for x in le.split("\n") if x]
     info["reference_lines"] = len(rl)
@@ -715,12 +854,30 @@ def run_e2e(ctx, stats, pairs, pair_lines, pair_cmp, impls, impl_lines, specs, m
         f = x.split(" ", 2)
         llmap.setdefault(f[0], []).append(x)
     diffs = 0
+    crashed = lrc != rrc
+    crash_reported = False
     for cn, (kind, ref_i) in enumerate(case_meta):
         a, b = refmap.get(str(cn), ["<missing>"]), llmap.get(str(cn), ["<missing>"])
         stats["e2e:" + kind] = stats.get("e2e:" + kind, 0) + 1
         if a == b:
             continue
         diffs += 1
+        if crashed and b == ["<missing>"]:
+            # the llgo-built program died (exit %s vs %s): the first case without output is the one that killed it
+            if not crash_reported:
+                crash_reported = True
+                what = metas[ref_i][0] if kind in ("impl", "static") else (pairs[ref_i][1] if kind == "pair" else ref_i)
+                ctx.report("e2e:crash:%s:%s" % (kind, str(what)[:120]), "the program built by llgo dies (exit status %s, reference %s) in this case" % (lrc, rrc),
+                           {"case_kind": kind, "case": str(what), "reference_go": a, "llgo_last_lines": ll[-3:], "llgo_stderr_tail": le[-600:]})
+            continue
+        if kind == "static":
+            (op, itf, home), t, v, op_is_iface = metas[ref_i]
+            ctx.report("e2e:static-call:%s|%s" % (op, itf), "a method called through a statically converted interface value is not the method a direct call reaches",
+                       {"operand": op, "interface": itf, "reference_go": a, "llgo": b})
+            continue
+        if kind == "generic-local":
+            ctx.report("e2e:generic-local:" + ref_i, GENERIC_LOCAL_WHAT.get(ref_i, ref_i), {"case": ref_i, "reference_go": a, "llgo": b})
+            continue
         if kind == "imethod":
             ctx.report("e2e:imethod-slot-by-name", "a method called through an interface value is not the method a direct call reaches", {"case": ref_i, "reference_go": a, "llgo": b})
             continue
